@@ -201,7 +201,7 @@ class C21(Check):
             "(termination, final state, log_mn address trace) with a pairwise covering set (quick) or the full "
             "product (thorough) of jit_maxline {1,2,3,5,50} x max_exec_per_call {0,1,2,7} x {cold, warm second run "
             "in the same jitter} x jitted_block_max_size {10000,3,4,6}; python backend on every program, gcc on all "
-            "(thorough) or the first two programs of each shard (quick). Non-trivial: the hottest loop of the "
+            "(thorough) or the first program of each shard (quick). Non-trivial: the hottest loop of the "
             "program spans >= 2 translated blocks under the configuration; distinct by (program, backend, config).")
     assumptions = ["only the 'python' and 'gcc' backends exist here (llvmlite absent); nothing claimed for LLVM",
                    "log_mn (the jitter's own option) is enabled in every run, it is the observation channel",
@@ -277,7 +277,7 @@ class C21(Check):
                 hung = set()
                 # quick tier: every program on python, the first two of the shard on gcc too (each distinct block
                 # of each jit_maxline value costs one C compilation)
-                backends = ("python", "gcc") if (tier == "thorough" or iprog < 2) else ("python",)
+                backends = ("python", "gcc") if (tier == "thorough" or iprog < 1) else ("python",)
                 for backend in backends:
                     for bucket, detail, mcfg in judge_program(lab, prog, backend, cfgs, res,
                                                               skip=hung if backend == "gcc" else None,
